@@ -246,7 +246,11 @@ ALSO = {
     # chronological order across types: the mixed comparisons
     'C07': lambda c, r: c['prop'] == 'C17' and ('compar' in c['clause'] or 'cmp' in c['clause'].lower()),
     # the three date-like types satisfy the same characterisation of truncation / rounding / last day / month arithmetic
-    'C17': lambda c, r: c['prop'] in ('C09', 'C10', 'C11') and ('timestamp::Timestamp' in r['root'] or 'oracle::Date' in r['root']),
+    'C17': lambda c, r: c['prop'] == 'C09' or (c['prop'] in ('C10', 'C11') and ('timestamp::Timestamp' in r['root'] or 'oracle::Date' in r['root'])),
+    # a run of blanks is rendered with its length: the lexer's blank rules
+    'C04': lambda c, r: c['prop'] == 'C19' and 'blank' in c['clause'].lower(),
+    # the text channel of the decoder ends in the parser's assembly step
+    'C15': lambda c, r: c['prop'] == 'C05' and 'TryFrom<format::NaiveDateTime>' in r['root'],
     # adding months relies on the month lengths (leap rule, month-length table)
     'C09': lambda c, r: c['prop'] == 'C01' and (r['root'] in ('common::is_leap_year', 'common::days_of_month') or 'K-step' in c['clause']),
     # the parser's final assembly validates the date with the calendar acceptance rule
@@ -257,7 +261,8 @@ ROOT_PATTERNS = {
     'C04': r'::format|Display|LazyFormat|Serialize',
     'C05': r'::parse|FromStr|visit_str|TryFrom<format::NaiveDateTime>',
     'C06': r'::format|::parse|Display|LazyFormat',
-    'C15': r'serialize|Serialize|Deserialize|visit_',
+    'C15': r'serialize|Serialize|Deserialize|visit_|TryFrom<format::NaiveDateTime>',
+    'C08': r'::(add|sub)_(days|date|time|timestamp|interval_dt|interval_ym)\b',
     'C18': r'::now|::parse|TryFrom<time::Time>',
     'C19': r'try_new|FormatParser',
 }
